@@ -1,8 +1,8 @@
 #!/bin/bash
-# tools/seedcheck.sh <prop> [worktree]  -- validate a seeded defect produced by an independent sub-agent:
+# tools/seedcheck.sh <prop> [worktree] [id]  -- validate a seeded defect produced by an independent sub-agent:
 #   saves patch + demo under seeded/<prop>/, runs the demo on the original and on the changed code,
 #   runs ./check <prop> against the changed tree (VERIF_REPO), starts the pinned test suite on the changed tree in the background.
-p=$1; wt=${2:-/tmp/seed_$p}; out=/verif/seeded/$p
+p=$1; wt=${2:-/tmp/seed_$p}; id=${3:-$p}; out=/verif/seeded/$id
 mkdir -p $out
 git -C $wt diff -- torchsnapshot > $out/patch.diff
 cp $wt/demo_$p.py $out/demo_$p.py 2>/dev/null
